@@ -209,6 +209,86 @@ pub fn gen_cfg(tier: Tier) -> GenCfg {
     }
 }
 
+fn second_opinion_period(tier: Tier) -> u64 {
+    match tier {
+        Tier::Quick => 250,
+        Tier::Thorough => 400,
+    }
+}
+
+/// z3 and cvc5 are given the declarations written by patronus, the assignment as equalities and the
+/// `get-value` command written by patronus: both must accept everything and return the reference value.
+pub fn second_opinion(ctx: &Context, e: ExprRef, used: &[ExprRef], env: &Env, rec: &mut Recorder) -> Result<(), Failure> {
+    if !crate::second::available() {
+        rec.exclude("second opinion: z3/cvc5 not installed");
+        return Ok(());
+    }
+    if used.iter().any(|s| !ctx.get_symbol_name(*s).unwrap().is_ascii()) {
+        rec.exclude("second opinion: non-ASCII symbol name");
+        return Ok(());
+    }
+    let mut script = String::from(crate::second::prelude());
+    for s in used {
+        script.push_str(&cmd_text(ctx, &SmtCommand::DeclareConst(*s)).map_err(|p| Failure::new("harness/second-opinion/write", p.msg))?);
+        script.push('\n');
+        let v = SVal::from_val(env.get(s).ok_or(Failure::new("harness/second-opinion/env", "no value"))?);
+        script.push_str(&format!(
+            "(assert (= {} {}))\n",
+            smtref::print_symbol(ctx.get_symbol_name(*s).unwrap()),
+            smtref::print_value(&v, 0)
+        ));
+    }
+    script.push_str("(check-sat)\n");
+    script.push_str(&cmd_text(ctx, &SmtCommand::GetValue(e)).map_err(|p| Failure::new("harness/second-opinion/write", p.msg))?);
+    script.push('\n');
+    let exp = refeval::eval(ctx, env, e).map_err(|m| Failure::new("harness/second-opinion/refeval", m))?;
+    let ops = crate::second::ask(&script).map_err(|m| Failure::new("harness/second-opinion/spawn", m))?;
+    for o in ops {
+        if o.timed_out {
+            rec.exclude("second opinion: solver hit its time limit");
+            continue;
+        }
+        // cvc5 implements the (non-standard) `as const` only for constant elements
+        if o.solver == "cvc5"
+            && reachable(ctx, &[e]).iter().any(|n| matches!(&ctx[*n], Expr::ArrayConstant { e: d, .. } if !matches!(&ctx[*d], Expr::BVLiteral(_))))
+        {
+            rec.exclude("second opinion: cvc5 wants a literal under `as const`");
+            continue;
+        }
+        rec.label(&format!("second-opinion:{}", o.solver));
+        if !o.accepted {
+            return Err(Failure::new(
+                format!("harness/second-opinion/{}/rejects-what-smtref-accepts", o.solver),
+                format!("{} answered `{}` to\n{}", o.solver, o.output.trim(), script),
+            ));
+        }
+        let bad = |why: &str| {
+            Failure::new(
+                format!("harness/second-opinion/{}/{}", o.solver, why),
+                format!("{} answered `{}` to\n{}\nreference value: {}", o.solver, o.output.trim(), script, exp.short()),
+            )
+        };
+        if o.replies.first().and_then(|r| r.sym()) != Some("sat") {
+            return Err(bad("not-sat"));
+        }
+        if matches!(exp, Val::Arr(_)) {
+            rec.label("second-opinion:array-term-accepted");
+            continue;
+        }
+        let pair = o.replies.get(1).and_then(|r| r.list()).and_then(|l| l.first()).and_then(|p| p.list());
+        let Some(pair) = pair.filter(|p| p.len() == 2) else { return Err(bad("reply-shape")) };
+        let got = smtref::eval(&pair[1], &Scopes::new(), &ValEnv::new(), &mut vec![]).map_err(|_| bad("reply-value"))?;
+        let same = match (&exp, &got) {
+            (Val::Bv(a), SVal::B(_, b)) => a == b,
+            _ => false,
+        };
+        if !same {
+            return Err(bad("value-differs-from-reference"));
+        }
+    }
+    Ok(())
+}
+
 fn localise(ctx: &Context, sc: &Scopes, root: ExprRef, envs: &[Env]) -> Option<(String, String)> {
     for n in reachable(ctx, &[root]) {
         if let Err((kind, msg)) = check_term(ctx, sc, n, envs) {
@@ -367,6 +447,10 @@ impl Prop for C05 {
                     format!("{}\nexpr: {}\n{}", detail, refeval::show(ctx, *e), msg),
                 ));
             }
+        }
+        // ---- second opinion of the real solvers on a slice of the cases (guards smtref, see second.rs)
+        if !terms.is_empty() && !rec.frozen && hash_bytes(tape) % second_opinion_period(tier) == 3 {
+            second_opinion(ctx, terms[0], &used, &envs[0], rec)?;
         }
         let mut any_site = false;
         for e in terms.iter() {
